@@ -52,11 +52,17 @@ var c20Ops = []opSpec{{"stat", fxpStat}, {"open", fxpOpen}, {"readlink", fxpRead
 	// Client.Remove goes on to RMDIR). Oracle only: no model of these call sequences is compared.
 	{"remove", fxpRmdir}, {"removefirst", fxpRemove}, {"mkdirall", fxpStat}, {"mkdirallmk", fxpMkdir}, {"removeall", fxpLstat},
 	{"realpath", fxpRealpath}, {"mkdir", fxpMkdir}, {"symlink", fxpSymlink}, {"chmod", fxpSetstat}, {"truncatefile", fxpFsetstat},
-	{"posixrename", fxpExtended}, {"lstat", fxpLstat}, {"fstat", fxpFstat}, {"create", fxpOpen}, {"glob", fxpOpendir}}
+	{"posixrename", fxpExtended}, {"lstat", fxpLstat}, {"fstat", fxpFstat}, {"create", fxpOpen}, {"glob", fxpOpendir},
+	// multi-chunk transfers in which EVERY chunk request gets the scripted reply, the replies to the chunks outstanding together
+	// being written in the opposite order of the requests (a server may answer in any order): concurrent WriteAt,
+	// ReadFromWithConcurrency, concurrent ReadAt, WriteTo
+	{"writeconc-every", fxpWrite}, {"readfromconc-every", fxpWrite}, {"readconc-every", fxpRead}, {"writeto-every", fxpRead}}
 
 // c20Compound: operations that are not compared with the model (only crash / hang / follow-up / Close / allocation are judged)
 func c20Compound(op string) bool {
 	switch op {
+	case "writeconc-every", "readfromconc-every", "readconc-every", "writeto-every":
+		return true
 	case "readconc", "writeto", "remove", "removefirst", "mkdirall", "mkdirallmk", "removeall", "realpath", "mkdir", "symlink", "chmod",
 		"truncatefile", "posixrename", "lstat", "fstat", "create", "glob":
 		return true
@@ -97,12 +103,56 @@ func runC20Case(op string, reply []byte) string {
 			}
 		}()
 		done := false
+		multi := strings.HasSuffix(op, "-every")
+		nheld := 0
+		held := make(chan uint32, 4096)
+		defer close(held)
+		go func() { // multi: collect the target requests outstanding together (up to 3, or whatever came within 20 ms), answer them newest first
+			var ids []uint32
+			flush := func() {
+				for i := len(ids) - 1; i >= 0; i-- {
+					r := append([]byte(nil), reply...)
+					if len(r) >= 5 {
+						binary.BigEndian.PutUint32(r[1:], ids[i])
+					}
+					if len(r) > 0 {
+						outq <- frame(r)
+					}
+				}
+				ids = nil
+			}
+			for {
+				var t <-chan time.Time
+				if len(ids) > 0 {
+					t = time.After(20 * time.Millisecond)
+				}
+				select {
+				case id, ok := <-held:
+					if !ok {
+						return
+					}
+					if ids = append(ids, id); len(ids) == 3 {
+						flush()
+					}
+				case <-t:
+					flush()
+				}
+			}
+		}()
 		for {
 			fr, err := readFrame(c2)
 			if err != nil {
 				return
 			}
 			id := fr.ID
+			if fr.Typ == spec.target && multi && nheld < 12 { // the 13th and later chunk requests get the ordinary answer (READ: end of file)
+				nheld++
+				if len(reply) == 0 {
+					return // cannot frame an empty body: drop the link
+				}
+				held <- id
+				continue
+			}
 			if fr.Typ == spec.target && !done {
 				done = true
 				r := append([]byte(nil), reply...)
@@ -151,8 +201,8 @@ func runC20Case(op string, reply []byte) string {
 		}
 	}()
 	opts := []sftp.ClientOption{}
-	if op == "readconc" || op == "writeto" {
-		opts = append(opts, sftp.MaxPacketUnchecked(8), sftp.MaxConcurrentRequestsPerFile(3))
+	if op == "readconc" || op == "writeto" || strings.HasSuffix(op, "-every") {
+		opts = append(opts, sftp.MaxPacketUnchecked(8), sftp.MaxConcurrentRequestsPerFile(3), sftp.UseConcurrentWrites(true))
 	}
 	cl, err := sftp.NewClientPipe(c1, c1, opts...)
 	if err != nil {
@@ -243,7 +293,22 @@ func runC20Case(op string, reply []byte) string {
 			b := make([]byte, 8)
 			n, err := f.ReadAt(b, 0)
 			res = fmt.Sprintf("n=%x;data=%s;err=%s", n, hexs(b[:clampLen(n, len(b))]), cliErrKind(err))
-		case "readconc":
+		case "writeconc-every", "readfromconc-every":
+			f, err := cl.OpenFile("/x", os.O_RDWR)
+			if err != nil {
+				res = "err:open"
+				break
+			}
+			var n int64
+			if op == "writeconc-every" {
+				var k int
+				k, err = f.WriteAt(bytes.Repeat([]byte("w"), 40), 0)
+				n = int64(k)
+			} else {
+				n, err = f.ReadFromWithConcurrency(bytes.NewReader(bytes.Repeat([]byte("r"), 40)), 3)
+			}
+			res = fmt.Sprintf("n=%x;err=%s", n, cliErrKind(err))
+		case "readconc", "readconc-every":
 			f, err := cl.Open("/x")
 			if err != nil {
 				res = "err:open"
@@ -252,7 +317,7 @@ func runC20Case(op string, reply []byte) string {
 			b := make([]byte, 24)
 			n, err := f.ReadAt(b, 0)
 			res = fmt.Sprintf("n=%x;err=%s", n, cliErrKind(err))
-		case "writeto":
+		case "writeto", "writeto-every":
 			f, err := cl.Open("/x")
 			if err != nil {
 				res = "err:open"
@@ -348,7 +413,7 @@ func c20Handle(req string) string {
 }
 
 func runC20(c *Ctx) {
-	c.Rule("for every client operation (stat, open, readlink, readdir, rename, sequential read, statvfs, concurrent ReadAt, WriteTo; and, judged by the crash/hang/follow-up/Close/allocation oracles only, Remove (the REMOVE and the RMDIR reply), MkdirAll (the STAT and the MKDIR reply), RemoveAll, RealPath, Mkdir, Symlink, Chmod, File.Truncate, PosixRename, Lstat, File.Stat, Create, Glob): the valid reply cut at every byte, " +
+	c.Rule("for every client operation (stat, open, readlink, readdir, rename, sequential read, statvfs, concurrent ReadAt, WriteTo; the multi-chunk transfers concurrent WriteAt, ReadFromWithConcurrency, concurrent ReadAt and WriteTo with EVERY chunk reply replaced and the replies of chunks outstanding together written newest first; and, judged by the crash/hang/follow-up/Close/allocation oracles only, Remove (the REMOVE and the RMDIR reply), MkdirAll (the STAT and the MKDIR reply), RemoveAll, RealPath, Mkdir, Symlink, Chmod, File.Truncate, PosixRename, Lstat, File.Stat, Create, Glob): the valid reply cut at every byte, " +
 		"every 4-byte window replaced by 0,1,n-1,n+1,2^20,2^31-1,2^32-1 and the multiples of 2^29 (counts whose size computation wraps), every other reply type substituted, random bytes; for stat and readdir additionally replies carrying extended attributes, mutated the same way; each case in a child process; " +
 		"non-trivial = reply that is not the valid one")
 	valid := map[string][]byte{
@@ -374,7 +439,7 @@ func runC20(c *Ctx) {
 		}(),
 	}
 	own := map[string]string{"stat": "attrs", "open": "handle", "readlink": "name1", "readdir": "names", "rename": "statusok", "read8": "data",
-		"statvfs": "statvfs", "readconc": "data", "writeto": "data",
+		"statvfs": "statvfs", "readconc": "data", "writeto": "data", "writeconc-every": "statusok", "readfromconc-every": "statusok", "readconc-every": "data", "writeto-every": "data",
 		"remove": "status", "removefirst": "status", "mkdirall": "attrs", "mkdirallmk": "statusok", "removeall": "attrs", "realpath": "name1", "mkdir": "statusok",
 		"symlink": "statusok", "chmod": "statusok", "truncatefile": "statusok", "posixrename": "statusok", "lstat": "attrs", "fstat": "attrs", "create": "handle", "glob": "handle"}
 	child, err := startChild("c20", 6000000)
